@@ -213,6 +213,38 @@ struct Atomic {
   void RawStore(T v) noexcept { __atomic_store_n(&v_, v, __ATOMIC_SEQ_CST); }
 };
 
+// std::atomic_ref: the referenced object is operated on through the same instrumented primitives (Atomic<T> is a
+// standard-layout struct holding just the value)
+template <class T>
+struct AtomicRef {
+  static_assert(std::is_trivially_copyable_v<T> && sizeof(T) <= 8);
+  using value_type = T;
+  static constexpr bool is_always_lock_free = true;
+  static constexpr size_t required_alignment = alignof(T);
+  explicit AtomicRef(T &o) noexcept : p_{reinterpret_cast<Atomic<T> *>(&o)} {}
+  AtomicRef(const AtomicRef &) noexcept = default;
+  auto operator=(const AtomicRef &) -> AtomicRef & = delete;
+  [[nodiscard]] bool is_lock_free() const noexcept { return true; }
+  T load(std::memory_order m = std::memory_order_seq_cst) const noexcept { return p_->load(m); }
+  void store(T d, std::memory_order m = std::memory_order_seq_cst) const noexcept { p_->store(d, m); }
+  T exchange(T d, std::memory_order m = std::memory_order_seq_cst) const noexcept { return p_->exchange(d, m); }
+  bool compare_exchange_weak(T &e, T d, std::memory_order s, std::memory_order f) const noexcept { return p_->compare_exchange_weak(e, d, s, f); }
+  bool compare_exchange_weak(T &e, T d, std::memory_order s = std::memory_order_seq_cst) const noexcept { return p_->compare_exchange_weak(e, d, s); }
+  bool compare_exchange_strong(T &e, T d, std::memory_order s, std::memory_order f) const noexcept { return p_->compare_exchange_strong(e, d, s, f); }
+  bool compare_exchange_strong(T &e, T d, std::memory_order s = std::memory_order_seq_cst) const noexcept { return p_->compare_exchange_strong(e, d, s); }
+  template <class U = T> auto fetch_add(U d, std::memory_order m = std::memory_order_seq_cst) const noexcept { return p_->fetch_add(d, m); }
+  template <class U = T> auto fetch_sub(U d, std::memory_order m = std::memory_order_seq_cst) const noexcept { return p_->fetch_sub(d, m); }
+  template <class U = T> auto fetch_and(U d, std::memory_order m = std::memory_order_seq_cst) const noexcept { return p_->fetch_and(d, m); }
+  template <class U = T> auto fetch_or(U d, std::memory_order m = std::memory_order_seq_cst) const noexcept { return p_->fetch_or(d, m); }
+  template <class U = T> auto fetch_xor(U d, std::memory_order m = std::memory_order_seq_cst) const noexcept { return p_->fetch_xor(d, m); }
+  operator T() const noexcept { return load(); }  // NOLINT
+  T operator=(T d) const noexcept { store(d); return d; }  // NOLINT
+  void wait(T old, std::memory_order m = std::memory_order_seq_cst) const noexcept { p_->wait(old, m); }
+  void notify_one() const noexcept { p_->notify_one(); }
+  void notify_all() const noexcept { p_->notify_all(); }
+  Atomic<T> *p_;
+};
+
 inline Atomic<uint32_t> *
 NotifySeq(const void *addr) noexcept
 {
@@ -596,6 +628,62 @@ namespace std
 {
 template <class T>
 using vshim_atomic = ::vshim::Atomic<T>;
+template <class T>
+using vshim_atomic_ref = ::vshim::AtomicRef<T>;
+using vshim_atomic_char = ::vshim::Atomic<char>;
+using vshim_atomic_schar = ::vshim::Atomic<signed char>;
+using vshim_atomic_uchar = ::vshim::Atomic<unsigned char>;
+using vshim_atomic_short = ::vshim::Atomic<short>;
+using vshim_atomic_ushort = ::vshim::Atomic<unsigned short>;
+using vshim_atomic_llong = ::vshim::Atomic<long long>;
+using vshim_atomic_ullong = ::vshim::Atomic<unsigned long long>;
+using vshim_atomic_int8_t = ::vshim::Atomic<int8_t>;
+using vshim_atomic_uint8_t = ::vshim::Atomic<uint8_t>;
+using vshim_atomic_int16_t = ::vshim::Atomic<int16_t>;
+using vshim_atomic_uint16_t = ::vshim::Atomic<uint16_t>;
+using vshim_atomic_intptr_t = ::vshim::Atomic<intptr_t>;
+using vshim_atomic_ptrdiff_t = ::vshim::Atomic<ptrdiff_t>;
+using vshim_atomic_intmax_t = ::vshim::Atomic<intmax_t>;
+using vshim_atomic_uintmax_t = ::vshim::Atomic<uintmax_t>;
+using vshim_atomic_int_fast8_t = ::vshim::Atomic<int_fast8_t>;
+using vshim_atomic_uint_fast8_t = ::vshim::Atomic<uint_fast8_t>;
+using vshim_atomic_int_fast16_t = ::vshim::Atomic<int_fast16_t>;
+using vshim_atomic_uint_fast16_t = ::vshim::Atomic<uint_fast16_t>;
+using vshim_atomic_int_fast32_t = ::vshim::Atomic<int_fast32_t>;
+using vshim_atomic_uint_fast32_t = ::vshim::Atomic<uint_fast32_t>;
+using vshim_atomic_int_fast64_t = ::vshim::Atomic<int_fast64_t>;
+using vshim_atomic_uint_fast64_t = ::vshim::Atomic<uint_fast64_t>;
+using vshim_atomic_int_least8_t = ::vshim::Atomic<int_least8_t>;
+using vshim_atomic_uint_least8_t = ::vshim::Atomic<uint_least8_t>;
+using vshim_atomic_int_least16_t = ::vshim::Atomic<int_least16_t>;
+using vshim_atomic_uint_least16_t = ::vshim::Atomic<uint_least16_t>;
+using vshim_atomic_int_least32_t = ::vshim::Atomic<int_least32_t>;
+using vshim_atomic_uint_least32_t = ::vshim::Atomic<uint_least32_t>;
+using vshim_atomic_int_least64_t = ::vshim::Atomic<int_least64_t>;
+using vshim_atomic_uint_least64_t = ::vshim::Atomic<uint_least64_t>;
+using vshim_atomic_signed_lock_free = ::vshim::Atomic<int64_t>;
+using vshim_atomic_unsigned_lock_free = ::vshim::Atomic<uint64_t>;
+// the C-style free functions of <atomic> for the instrumented type
+template <class T> inline T atomic_load(const ::vshim::Atomic<T> *a) noexcept { return a->load(); }
+template <class T> inline T atomic_load_explicit(const ::vshim::Atomic<T> *a, std::memory_order m) noexcept { return a->load(m); }
+template <class T> inline void atomic_store(::vshim::Atomic<T> *a, std::type_identity_t<T> d) noexcept { a->store(d); }
+template <class T> inline void atomic_store_explicit(::vshim::Atomic<T> *a, std::type_identity_t<T> d, std::memory_order m) noexcept { a->store(d, m); }
+template <class T> inline T atomic_exchange(::vshim::Atomic<T> *a, std::type_identity_t<T> d) noexcept { return a->exchange(d); }
+template <class T> inline T atomic_exchange_explicit(::vshim::Atomic<T> *a, std::type_identity_t<T> d, std::memory_order m) noexcept { return a->exchange(d, m); }
+template <class T> inline bool atomic_compare_exchange_weak(::vshim::Atomic<T> *a, std::type_identity_t<T> *e, std::type_identity_t<T> d) noexcept { return a->compare_exchange_weak(*e, d); }
+template <class T> inline bool atomic_compare_exchange_strong(::vshim::Atomic<T> *a, std::type_identity_t<T> *e, std::type_identity_t<T> d) noexcept { return a->compare_exchange_strong(*e, d); }
+template <class T> inline bool atomic_compare_exchange_weak_explicit(::vshim::Atomic<T> *a, std::type_identity_t<T> *e, std::type_identity_t<T> d, std::memory_order s, std::memory_order f) noexcept { return a->compare_exchange_weak(*e, d, s, f); }
+template <class T> inline bool atomic_compare_exchange_strong_explicit(::vshim::Atomic<T> *a, std::type_identity_t<T> *e, std::type_identity_t<T> d, std::memory_order s, std::memory_order f) noexcept { return a->compare_exchange_strong(*e, d, s, f); }
+template <class T> inline T atomic_fetch_add(::vshim::Atomic<T> *a, std::type_identity_t<T> d) noexcept { return a->fetch_add(d); }
+template <class T> inline T atomic_fetch_sub(::vshim::Atomic<T> *a, std::type_identity_t<T> d) noexcept { return a->fetch_sub(d); }
+template <class T> inline T atomic_fetch_and(::vshim::Atomic<T> *a, std::type_identity_t<T> d) noexcept { return a->fetch_and(d); }
+template <class T> inline T atomic_fetch_or(::vshim::Atomic<T> *a, std::type_identity_t<T> d) noexcept { return a->fetch_or(d); }
+template <class T> inline T atomic_fetch_xor(::vshim::Atomic<T> *a, std::type_identity_t<T> d) noexcept { return a->fetch_xor(d); }
+template <class T> inline T atomic_fetch_add_explicit(::vshim::Atomic<T> *a, std::type_identity_t<T> d, std::memory_order m) noexcept { return a->fetch_add(d, m); }
+template <class T> inline T atomic_fetch_sub_explicit(::vshim::Atomic<T> *a, std::type_identity_t<T> d, std::memory_order m) noexcept { return a->fetch_sub(d, m); }
+template <class T> inline T atomic_fetch_and_explicit(::vshim::Atomic<T> *a, std::type_identity_t<T> d, std::memory_order m) noexcept { return a->fetch_and(d, m); }
+template <class T> inline T atomic_fetch_or_explicit(::vshim::Atomic<T> *a, std::type_identity_t<T> d, std::memory_order m) noexcept { return a->fetch_or(d, m); }
+template <class T> inline T atomic_fetch_xor_explicit(::vshim::Atomic<T> *a, std::type_identity_t<T> d, std::memory_order m) noexcept { return a->fetch_xor(d, m); }
 using vshim_atomic_bool = ::vshim::Atomic<bool>;
 using vshim_atomic_int = ::vshim::Atomic<int>;
 using vshim_atomic_uint = ::vshim::Atomic<unsigned>;
@@ -657,6 +745,40 @@ vshim_mm_pause() noexcept
 // ---- token renames (kept in sync with vshim_off.hpp) ------------------------------------
 #define atomic vshim_atomic
 #define atomic_bool vshim_atomic_bool
+#define atomic_ref vshim_atomic_ref
+#define atomic_char vshim_atomic_char
+#define atomic_schar vshim_atomic_schar
+#define atomic_uchar vshim_atomic_uchar
+#define atomic_short vshim_atomic_short
+#define atomic_ushort vshim_atomic_ushort
+#define atomic_llong vshim_atomic_llong
+#define atomic_ullong vshim_atomic_ullong
+#define atomic_int8_t vshim_atomic_int8_t
+#define atomic_uint8_t vshim_atomic_uint8_t
+#define atomic_int16_t vshim_atomic_int16_t
+#define atomic_uint16_t vshim_atomic_uint16_t
+#define atomic_intptr_t vshim_atomic_intptr_t
+#define atomic_ptrdiff_t vshim_atomic_ptrdiff_t
+#define atomic_intmax_t vshim_atomic_intmax_t
+#define atomic_uintmax_t vshim_atomic_uintmax_t
+#define atomic_int_fast8_t vshim_atomic_int_fast8_t
+#define atomic_uint_fast8_t vshim_atomic_uint_fast8_t
+#define atomic_int_fast16_t vshim_atomic_int_fast16_t
+#define atomic_uint_fast16_t vshim_atomic_uint_fast16_t
+#define atomic_int_fast32_t vshim_atomic_int_fast32_t
+#define atomic_uint_fast32_t vshim_atomic_uint_fast32_t
+#define atomic_int_fast64_t vshim_atomic_int_fast64_t
+#define atomic_uint_fast64_t vshim_atomic_uint_fast64_t
+#define atomic_int_least8_t vshim_atomic_int_least8_t
+#define atomic_uint_least8_t vshim_atomic_uint_least8_t
+#define atomic_int_least16_t vshim_atomic_int_least16_t
+#define atomic_uint_least16_t vshim_atomic_uint_least16_t
+#define atomic_int_least32_t vshim_atomic_int_least32_t
+#define atomic_uint_least32_t vshim_atomic_uint_least32_t
+#define atomic_int_least64_t vshim_atomic_int_least64_t
+#define atomic_uint_least64_t vshim_atomic_uint_least64_t
+#define atomic_signed_lock_free vshim_atomic_signed_lock_free
+#define atomic_unsigned_lock_free vshim_atomic_unsigned_lock_free
 #define atomic_int vshim_atomic_int
 #define atomic_uint vshim_atomic_uint
 #define atomic_long vshim_atomic_long
